@@ -78,11 +78,13 @@ def _run_task(task):
                     os.unlink(fp)
                 except OSError:
                     pass
-    res["scenario"] = sc
     res["digest"] = world.digest(
         [sc, [v[0] for v in res["viol"]], [h[0] for h in res["herr"]], res["sig"], res["events"],
          res["steps"], res.get("oplog")]
     )
+    # the scenario travels back only when somebody will look at it
+    if res["viol"] or res["herr"] or task.get("want_scenario") or "scenario" in task:
+        res["scenario"] = sc
     return res
 
 
